@@ -131,9 +131,9 @@ Proof.
 Qed.
 
 (* ---- projections of the setters ------------------------------------------------------------------ *)
-Ltac ss := cbn [size items inflight stopped waiting tok lock prods cancelled results acc hand fin pool held nobj pick
+Ltac ss := cbn [size items inflight stopped waiting tok lock prods cancelled results acc hand fin pool held nobj pick cons corrupt dropped
                 set_size set_items set_inflight set_stopped set_waiting set_tok set_lock set_prods
-                set_cancelled set_results set_acc set_hand set_fin set_pool set_held set_nobj set_pick setp fst snd] in *.
+                set_cancelled set_results set_acc set_hand set_fin set_pool set_held set_nobj set_pick set_cons set_corrupt set_dropped setp fst snd] in *.
 
 (* destruct the innermost match of the goal *)
 Ltac dmatch :=
@@ -146,7 +146,11 @@ Ltac dmatch :=
   end.
 
 Ltac unfold_step :=
-  unfold step, offer, try_add, enqueue, read, done, signal, deliver, handoff, find_res, lock_free, pool_get, pool_put, bcast.
+  unfold step, cread, cread_faulty, park, offer, try_add, enqueue, read, done, signal, deliver, handoff, find_res, lock_free, pool_get, pool_put, bcast;
+  cbn [size items inflight stopped waiting tok lock prods cancelled results acc hand fin pool held nobj pick cons corrupt dropped
+       set_size set_items set_inflight set_stopped set_waiting set_tok set_lock set_prods
+       set_cancelled set_results set_acc set_hand set_fin set_pool set_held set_nobj set_pick set_cons set_corrupt set_dropped];
+  try match goal with NF : corrupt _ = [] |- _ => rewrite ?NF; cbv beta iota end.
 
 (* goal:  step c s l = Some (s', z) -> G s'   ==>  one goal per path through the code *)
 Ltac step_cases :=
@@ -247,10 +251,24 @@ Ltac wsz_tac I6 :=
   try (inversion Hq; subst; simpl in Hw; inversion Hw; subst; lia);
   try (eapply I6; eassumption).
 
-Lemma sizeinv_step c s l s' z :
-  sizeinv c s -> wf_label c l -> step c s l = Some (s', z) -> sizeinv c s'.
+Lemma nofault_step c s l s' z :
+  corrupt s = [] -> wf_label c l -> step c s l = Some (s', z) -> corrupt s' = [].
 Proof.
-  intros I W H. revert I W. unfold sizeinv, wf_label. revert H.
+  intros NF W H. revert W. unfold wf_label. revert H.
+  step_cases; intros W; try contradiction; try assumption; try discriminate; auto.
+Qed.
+
+Lemma reach_nofault (P : label -> Prop) c s :
+  (forall l, P l -> wf_label c l) -> reachP P c s -> corrupt s = [].
+Proof.
+  intros HP R. revert s R. apply (reachP_ind P c (fun s => corrupt s = [])); [reflexivity|].
+  intros s0 l s1 z _ I Pl H. eapply nofault_step; eauto.
+Qed.
+
+Lemma sizeinv_step c s l s' z :
+  sizeinv c s -> corrupt s = [] -> wf_label c l -> step c s l = Some (s', z) -> sizeinv c s'.
+Proof.
+  intros I NF W H. revert I W. unfold sizeinv, wf_label. revert H.
   destruct (kind c) eqn:K;
   step_cases; intros (I1 & I2 & I3 & I4 & I5 & I6) W;
     try (specialize (I2 eq_refl)); try (specialize (W eq_refl));
